@@ -8,6 +8,8 @@
 //! with a zero, tightly clustered distinct dyadic abscissae (exact power sums, tolerance scaled to the conditioning), circle
 //! fit from exactly 3..5 samples on small circles / short arcs in both BestFit modes incl. concentric guesses whose
 //! residuals are exactly equal, RANSAC with min_r / max_r exactly equal to the generating radius.
+//! ROUND 4: RANSAC on large inputs (>= 2000 points) whose point ORDER is correlated with circle membership (interleaved scans,
+//! blocks): the inlier count of the result is taken over ALL points.
 use super::{close, Report};
 use crate::common::BestFit;
 use crate::func1::{Func1, Polynomial, Series1};
@@ -381,8 +383,69 @@ fn check_ransac_round2(r: &mut Report) {
     }
 }
 
+// ---------------------------------------------------------------- round 4: LARGE inputs whose ORDER correlates with circle membership
+/// deterministic scatter over [-12, 12]^2 (Weyl sequence, no RNG)
+fn scatter(k: usize) -> Point2 {
+    let fx = (k as f64 * 0.6180339887498949).fract();
+    let fy = (k as f64 * 0.41421356237309515 + 0.25).fract();
+    Point2::new(-12.0 + 24.0 * fx, -12.0 + 24.0 * fy)
+}
+/// `n` points: 35% of them samples of the generating circle, 25% (at most the slots available) samples of a smaller
+/// decoy circle, the rest scattered outliers.  `slot(i)` says what index i holds: 1 = generating circle, 2 = decoy,
+/// 0 = outlier (a class whose samples are used up is continued with outliers)
+fn ordered_cloud(n: usize, gen: (f64, f64, f64), decoy: (f64, f64, f64), slot: &dyn Fn(usize) -> u8) -> (Vec<Point2>, usize, usize) {
+    let (n_gen, n_decoy) = (n * 35 / 100, n * 25 / 100);
+    let (mut g, mut d, mut o) = (0usize, 0usize, 0usize);
+    let mut pts = Vec::with_capacity(n);
+    for i in 0..n {
+        let s = slot(i);
+        if s == 1 && g < n_gen {
+            let a = 0.1 + 6.1 * g as f64 / n_gen as f64;
+            pts.push(Point2::new(gen.0 + gen.2 * a.cos(), gen.1 + gen.2 * a.sin()));
+            g += 1;
+        } else if s == 2 && d < n_decoy {
+            let a = 0.3 + 6.0 * d as f64 / n_decoy as f64;
+            pts.push(Point2::new(decoy.0 + decoy.2 * a.cos(), decoy.1 + decoy.2 * a.sin()));
+            d += 1;
+        } else {
+            pts.push(scatter(o));
+            o += 1;
+        }
+    }
+    (pts, g, d)
+}
+fn check_ransac_large(r: &mut Report) {
+    const CLAUSE: &str = "seeded RANSAC circle has at least as many inliers as the generating circle (>= 2000 points, point order correlated with circle membership)";
+    let tol = 1.0e-3;
+    for (gen, decoy) in [((2.0, -1.0, 3.0), (-6.0, 4.0, 1.5)), ((-4.0, 3.0, 5.0), (6.5, -5.0, 2.0))] {
+        for n in [2000usize, 3000, 5000] {
+            let m = n / 1000; // 2, 3, 5: the period of the interleaved layouts
+            let mut layouts: Vec<(String, Box<dyn Fn(usize) -> u8>)> = Vec::new();
+            for dres in [0usize, 1, m - 1] {
+                layouts.push((format!("interleaved: decoy samples on the indices i % {} == {}, generating samples on the other indices", m, dres), Box::new(move |i| if i % m == dres { 2 } else { 1 })));
+            }
+            layouts.push(("blocks: decoy samples first, generating samples last".to_string(), Box::new(move |i| if i < n * 3 / 10 { 2 } else if i >= n * 6 / 10 { 1 } else { 0 })));
+            layouts.push(("blocks: generating samples first, decoy samples last".to_string(), Box::new(move |i| if i < n * 4 / 10 { 1 } else if i >= n * 7 / 10 { 2 } else { 0 })));
+            layouts.push(("blocks: outliers first, then decoy samples, generating samples in the last 35%".to_string(), Box::new(move |i| if i >= n - n * 35 / 100 { 1 } else if i >= n * 3 / 10 { 2 } else { 0 })));
+            for (lname, slot) in layouts.iter() {
+                let (pts, g, d) = ordered_cloud(n, gen, decoy, slot.as_ref());
+                let gc = Circle2::new(gen.0, gen.1, gen.2);
+                let count = |c: &Circle2| pts.iter().filter(|p| c.distance_to(p).abs() < tol).count();
+                let want = count(&gc);
+                for (it, lo, hi) in [(None, None, None), (Some(400usize), Some(1.0), Some(8.0))] {
+                    r.case();
+                    let res = Circle2::ransac(&pts, tol, it, lo, hi);
+                    let desc = || format!("ransac({} points [{}]: {} samples of circle {:?}, {} samples of decoy circle {:?}, the rest scattered; tol {:?}, iterations {:?}, min_r {:?}, max_r {:?}) -> {:?}; generating circle has {} inliers",
+                        n, lname, g, gen, d, decoy, tol, it, lo, hi, res.as_ref().map(|c| (c.x(), c.y(), c.r(), count(c))).map_err(|_| "Err"), want);
+                    r.check(g > d && want >= g && match &res { Ok(c) => count(c) >= want, Err(_) => false }, CLAUSE, desc);
+                }
+            }
+        }
+    }
+}
+
 pub fn run() -> Option<Report> {
-    let mut r = Report::new("polynomial sizes K=2..=6 x 6 abscissa sets (asymmetric integers, dyadic offset from zero, uneven both signs, positive side, 7 values within 4e-4 of 1.0 [K=2], 9 values within 0.07 of -2 [K<=3]) x {no weights, 2 non-uniform positive weight vectors} x {3 exact coefficient vectors, 2 arbitrary data vectors}; Series1 lines on 5 abscissa sets incl. clustered distinct values x 5 data vectors; three-point circles on all ordered triples of 10 points with |det| >= 1 and on 6 lines x all ordered triples of 8 parameters (exactly collinear and collinear up to rounding); circle fit on 4 circles x 6 arcs (60..360 degrees, 40 samples) x 6 guesses (centre within 0.16 r, radius within 15%) x {exact, perturbed 2% r, perturbed 8% r}; RANSAC on 3 contaminated sample sets (36 inliers + 8/12/18 outliers); ROUND 2: polynomial sizes K=2..=6 on {K, K+1, 8} distinct integer abscissae with ordinates that are exactly 0.0 (exact samples of polynomials with 1 / K-1 roots at the abscissae, 2 data vectors with 3..5 zeros) x {no weights, positive weights, weights with one 0.0 [more than K samples]}, a panic counts as a failing input; tightly clustered distinct dyadic abscissae: six values k/256 in [0, 0.02] (K <= 3, coefficient tolerance 1e-7) and four values {2,3,4,6}*2^-21 in [9.5e-7, 2.9e-6] (K = 2, tolerance 1e-9), also for Series1; circle fit from exactly 3 / 4 / 5 samples on 5 circles (r = 2.5e-4, 1e-3, 0.125) x 4 arcs (60 .. 288 degrees) x 9 guesses (ring of round 1 + concentric with the radius off by 15% / 25%) x {All, Gaussian(3.0)}; exactly representable samples (integer points of x^2+y^2=25, shifted / scaled by 1/16, 5 subsets of 3..12 points) x 5 guesses (4 concentric with a wrong / the right radius) x {All, Gaussian(3.0), Gaussian(2.0)}; the 40-sample exact arcs in Gaussian(3.0) mode; RANSAC on the 12 integer points of a radius-5 circle + 7 outliers with min_r / max_r exactly 5.0 (6 windows x 2 centres)");
+    let mut r = Report::new("polynomial sizes K=2..=6 x 6 abscissa sets (asymmetric integers, dyadic offset from zero, uneven both signs, positive side, 7 values within 4e-4 of 1.0 [K=2], 9 values within 0.07 of -2 [K<=3]) x {no weights, 2 non-uniform positive weight vectors} x {3 exact coefficient vectors, 2 arbitrary data vectors}; Series1 lines on 5 abscissa sets incl. clustered distinct values x 5 data vectors; three-point circles on all ordered triples of 10 points with |det| >= 1 and on 6 lines x all ordered triples of 8 parameters (exactly collinear and collinear up to rounding); circle fit on 4 circles x 6 arcs (60..360 degrees, 40 samples) x 6 guesses (centre within 0.16 r, radius within 15%) x {exact, perturbed 2% r, perturbed 8% r}; RANSAC on 3 contaminated sample sets (36 inliers + 8/12/18 outliers); ROUND 2: polynomial sizes K=2..=6 on {K, K+1, 8} distinct integer abscissae with ordinates that are exactly 0.0 (exact samples of polynomials with 1 / K-1 roots at the abscissae, 2 data vectors with 3..5 zeros) x {no weights, positive weights, weights with one 0.0 [more than K samples]}, a panic counts as a failing input; tightly clustered distinct dyadic abscissae: six values k/256 in [0, 0.02] (K <= 3, coefficient tolerance 1e-7) and four values {2,3,4,6}*2^-21 in [9.5e-7, 2.9e-6] (K = 2, tolerance 1e-9), also for Series1; circle fit from exactly 3 / 4 / 5 samples on 5 circles (r = 2.5e-4, 1e-3, 0.125) x 4 arcs (60 .. 288 degrees) x 9 guesses (ring of round 1 + concentric with the radius off by 15% / 25%) x {All, Gaussian(3.0)}; exactly representable samples (integer points of x^2+y^2=25, shifted / scaled by 1/16, 5 subsets of 3..12 points) x 5 guesses (4 concentric with a wrong / the right radius) x {All, Gaussian(3.0), Gaussian(2.0)}; the 40-sample exact arcs in Gaussian(3.0) mode; RANSAC on the 12 integer points of a radius-5 circle + 7 outliers with min_r / max_r exactly 5.0 (6 windows x 2 centres); ROUND 4: RANSAC on LARGE inputs (2000 / 3000 / 5000 points: 35% exact samples of the generating circle, 25% of a smaller decoy circle, the rest scattered; 2 circle pairs) whose ORDER is correlated with circle membership - interleaved with period len/1000 (decoy samples on one residue class 0 / 1 / period-1, generating samples on the others) and 3 block layouts (generating samples first / last) - x {default iterations, 400 iterations with a radius window holding both circles}, tol 1e-3");
     for s in xsets().iter() {
         check_poly::<2>(&mut r, s); check_poly::<3>(&mut r, s); check_poly::<4>(&mut r, s); check_poly::<5>(&mut r, s); check_poly::<6>(&mut r, s);
     }
@@ -396,6 +459,7 @@ pub fn run() -> Option<Report> {
     check_ransac(&mut r);
     check_circle_fit_round2(&mut r);
     check_ransac_round2(&mut r);
+    check_ransac_large(&mut r);
     let _ = close(0.0, 0.0);
     Some(r)
 }
